@@ -147,7 +147,7 @@ pub fn fz_encode(data: &[u8]) {
         "C09" => report("C09", "heavy", &case, &c09::check(&case)),
         "C13" => report("C13", "general", &case, &c13::check(&case)),
         "C15" => {
-            let c = c15::Case { base: case, meta: vec![] };
+            let c = c15::Case { base: case, meta: vec![], asm: None };
             report("C15", "stream", &c, &c15::check(&c));
         }
         _ => report("C01", "stream", &case, &c01::check(&case)),
